@@ -876,6 +876,18 @@ func valueSources(r *core.Run, anchor *ssa.Function, fr frame, v ssa.Value, at *
 			out = append(out, valueSources(r, anchor, fr, e, x.Block().Preds[i], depth+1, seen)...)
 		}
 		return out
+	case *ssa.Parameter:
+		// a helper's parameter: the argument at the call that leads into this frame
+		if len(fr.Chain) > 0 {
+			call := fr.Chain[len(fr.Chain)-1]
+			if pf := parentFrame(r, anchor, fr); pf != nil {
+				for i, q := range fr.Fn.Params {
+					if q == x && i < len(call.Common().Args) && !call.Common().IsInvoke() {
+						return valueSources(r, anchor, *pf, call.Common().Args[i], call.Block(), depth+1, seen)
+					}
+				}
+			}
+		}
 	case *ssa.Call:
 		if h := x.Call.StaticCallee(); h != nil && r.P.Transparent(h) && len(h.Blocks) > 0 && h.Signature.Results().Len() == 1 {
 			if cf := childFrame(r, anchor, fr, x); cf != nil {
